@@ -2,6 +2,7 @@ package main
 
 import (
 	"bytes"
+	"encoding/hex"
 	"fmt"
 	"os"
 	"sort"
@@ -159,6 +160,45 @@ func hyperbCmd(out *cq.Out, seed uint64, tier string) {
 			plan = append(plan, fmt.Sprintf("%d", k))
 			steps = append(steps, fmt.Sprintf("HAdd %s %s %s %s %s", cq.List(kvs), cq.Bytes(root), probeCache(cache, keys), dumpTable(store, storage.HyperCacheTable, 32), dumpTable(store, storage.HyperTable, 32)))
 			out.Case(fmt.Sprintf("hb:%d:%d", ci, len(plan)), k > 1)
+			// searches: a stored key, a key sharing a long prefix with a stored one, a random key
+			for q := 0; q < 3; q++ {
+				var key []byte
+				switch q {
+				case 0:
+					key = keys[rng.Intn(len(keys))]
+				case 1:
+					key = sharePrefix(rng, keys[rng.Intn(len(keys))], prefixLens[rng.Intn(len(prefixLens))])
+				default:
+					key = rng.Bytes(32)
+				}
+				var proof *hyper.QueryProof
+				if p, msg := cq.Catch(func() { proof, err = tree.QueryMembership(key) }); p || err != nil {
+					out.Violate("C01:hyper-search-panic", fmt.Sprintf("hyper tree search failed after %d keys: %s %v", len(keys), msg, err), desc)
+					break
+				}
+				type pe struct{ k, v []byte }
+				var es []pe
+				for id, d := range proof.AuditPath {
+					// id = "0x<index hex>|<height>"
+					var idx string
+					var h int
+					parts := strings.SplitN(id, "|", 2)
+					idx = strings.TrimPrefix(parts[0], "0x")
+					fmt.Sscanf(parts[1], "%d", &h)
+					ib, _ := hex.DecodeString(idx)
+					if len(ib) < 32 { // %#x prints an empty slice as "" and drops nothing else; pad defensively
+						ib = append(make([]byte, 32-len(ib)), ib...)
+					}
+					es = append(es, pe{append([]byte{byte(h >> 8), byte(h)}, ib...), d})
+				}
+				sort.Slice(es, func(i, j int) bool { return bytes.Compare(es[i].k, es[j].k) < 0 })
+				var xs []string
+				for _, e := range es {
+					xs = append(xs, fmt.Sprintf("(%s, %s)", cq.Bytes(e.k), cq.Bytes(e.v)))
+				}
+				steps = append(steps, fmt.Sprintf("HFind %s %s %s", cq.Bytes(key), cq.Bytes(proof.Value), cq.List(xs)))
+				out.Case(fmt.Sprintf("hbfind:%d:%d:%d", ci, len(plan), q), len(proof.Value) > 0)
+			}
 			if rng.Intn(5) == 0 {
 				// a new tree object on the same store: the cache is rebuilt from the persisted tiles
 				tree.Close()
